@@ -37,7 +37,8 @@ class DoxyTree:
 
     def add_class(self, cpp, methods):
         """methods: [(callee name, [arg names], [has default per arg])] in declaration order."""
-        refid = 'class' + ''.join(ch if ch.isalnum() else '_' for ch in cpp) + '_%d' % len(self.compounds)
+        # (Doxygen shortens long identifiers as well: file names have a length limit)
+        refid = 'class' + ''.join(ch if ch.isalnum() else '_' for ch in cpp)[:120] + '_%d' % len(self.compounds)
         root = ET.Element('doxygen')
         cd = ET.SubElement(root, 'compounddef', {'id': refid, 'kind': 'class'})
         ET.SubElement(cd, 'compoundname').text = cpp
